@@ -57,6 +57,7 @@ def main():
                 verdicts[tier] = {"detected": c.returncode == 1, "rc": c.returncode, "first_signature": (sigs[0][:300] if sigs else ""), "seconds": round(time.time() - t0)}
                 if c.returncode == 1:
                     break
+            print("%-10s %s %s" % (name, "confirmed" if confirmed else "NOT-CONFIRMED", json.dumps(verdicts)[:400]), flush=True)
             rows.append((name, "confirmed" if confirmed else "NOT-CONFIRMED suite=%s demo_with=%d demo_without=%d" % (suite, bad.returncode, good.returncode), json.dumps(verdicts)[:400]))
             if confirmed:
                 out = os.path.join(HERE, "seeded", name)
